@@ -1,6 +1,7 @@
 import PyxModel.Sexp
 import PyxModel.Oal.LexGen
 import PyxModel.Oal.LexClass
+import Gen.OalTrack
 
 /-! driver commands of property C13
 
@@ -16,6 +17,11 @@ import PyxModel.Oal.LexClass
       -> for each pair of lexical units `tightOk u v` as T / F (`bad` for an undecodable unit); units are written
          (word "s") (number "s") (fraction "s") (string "s") (ticked "s") (endfor "s") (endif "s") (endwhile "s")
          (lit i) (div) (ns "n"), together with the unit's text and tokens:  (T "text u" "text v" ((KIND "lexeme") ...))
+
+    (c13-grammar)
+      -> the production table generated from the p_* functions (Gen/OalTrack.lean), one entry per production:
+         ("function" "lhs" length "rhs symbols separated by blanks" tracked), to be compared with PLY's own
+         `parser.productions`
 -/
 namespace Pyx.Driver.C13
 open Pyx Pyx.Sexp Pyx.OalLex
@@ -57,7 +63,11 @@ def tightSexp : Sexp → Sexp
     | _, _ => sym "bad"
   | _ => sym "bad"
 
+def prodSexp (p : Pyx.OalTrack.Prod) : Sexp :=
+  list [str p.fn, str p.lhsName, ofNat p.rhs.length, str (" ".intercalate p.rhsNames), ofBool p.tracked]
+
 def handle : List Sexp → Option Sexp
+  | [sym "c13-grammar"] => some (list (Gen.OalTrack.prods.map prodSexp))
   | sym "c13-tight" :: pairs => some (list (pairs.map tightSexp))
   | sym "c13-lex" :: str text :: spans =>
     let cs := text.toList
